@@ -54,6 +54,7 @@ def run_case(case):
         _, G, F = solve.solve(St, np.zeros((ny, nx)), levels, meas_pt=(im * dx, jm * dy), footprint=True, precision=prec)
         counters["footprint_runs"] += 1
         fps[(im, jm)] = (solve.as3d(G, nl), solve.as3d(F, nl))
+        fps[(im, jm)] += solve.surface_scales(St, np.zeros((ny, nx)), meas_pt=(im * dx, jm * dy), footprint=True, precision=prec)
     desc = gen.describe(St)
     for _ in range(2):
         q0, skind = gen.make_source(rng, ny, nx)
@@ -61,13 +62,13 @@ def run_case(case):
         _, cf, ff = solve.solve(St, q0, levels, srf_bg_conc=bg, precision=prec)
         counters["forward_runs"] += 1
         cf, ff = solve.as3d(cf, nl), solve.as3d(ff, nl)
-        for (im, jm), (G, F) in fps.items():
+        for (im, jm), (G, F, sG, sF) in fps.items():
             sa = float(np.sum(np.abs(q0)))
             for k in range(nl):
                 lhs_f = float(np.sum(q0 * F[k]))
                 lhs_c = float(np.sum(q0 * G[k]))
-                sf = sa * float(np.max(np.abs(F[k]))) or 1.0
-                sc = sa * float(np.max(np.abs(G[k]))) + abs(bg) or 1.0  # the background is stored in the same (rounded) mean mode
+                sf = sa * max(float(np.max(np.abs(F[k]))), sF) or 1.0
+                sc = sa * max(float(np.max(np.abs(G[k]))), sG) + abs(bg) or 1.0  # the background is stored in the same (rounded) mean mode
                 ef = abs(lhs_f - float(ff[k, jm, im])) / sf
                 ec = abs(lhs_c - (float(cf[k, jm, im]) - bg)) / sc
                 resid[f"flux_{prec}"] = max(resid[f"flux_{prec}"], ef)
